@@ -1378,6 +1378,7 @@ func panicsWithError(p *ssa.Panic) bool {
 type guardSpec struct {
 	mu     string
 	fields map[string]bool
+	calls  map[string]bool // `flag heldcalls <field>...`: calls on the object in these fields need the lock too
 }
 
 // guardSpec parses `flag guarded <mutex field> <field>...`.
@@ -1386,9 +1387,12 @@ func (fv *FuncVC) guardSpec() *guardSpec {
 		return nil
 	}
 	f := strings.Fields(fv.C.Flags["guarded"])
-	g := &guardSpec{mu: f[0], fields: map[string]bool{}}
+	g := &guardSpec{mu: f[0], fields: map[string]bool{}, calls: map[string]bool{}}
 	for _, x := range f[1:] {
 		g.fields[x] = true
+	}
+	for _, x := range strings.Fields(fv.C.Flags["heldcalls"]) {
+		g.calls[x] = true
 	}
 	return g
 }
